@@ -33,10 +33,16 @@ impl Clone for Paths {
 /// crates/database/src/archive/error.rs `Error`: the variants `start` constructs and the `#[from]`
 /// conversions its `?` sites use.
 pub enum DbArchiveError {
+    ArchiveFileExists(PathBuf),
     ArchiveFileNotExists(PathBuf),
     InvalidArchiveManifest(PathBuf),
     NoDatabaseFile(PathBuf, String),
+    ImportSourceNotExists(AccountId),
+    ImportTargetExists(AccountId),
     DatabaseChecksum(CommitHash, CommitHash),
+    Json(JsonError),
+    Core(CoreError),
+    Vault(VaultError),
     TryFromSlice(TryFromSliceError),
     Io(Error),
     ZipArchive(ZipError),
